@@ -77,6 +77,32 @@ def copy (args : List String) : String :=
     ((argInt args "from").getD 0) ((argInt args "to").getD 0)
   s!"ws={wsLens r.ws}\tout={coutStr r.out}"
 
+/-! ### a partition value handed DIRECTLY to WriteContents / ReadContents (no Disk, no table): every spelling
+    (Start+End, Start+Size with End = 0, all three fields, contradictory ones), stamped or not -/
+
+def onePart (args : List String) : Option PartDisk.P := (parseParts ((arg args "part").getD "-")).head?
+
+/-- partio.pwrite part=kind,idx,start,end,size,lss,pss chunks=  → Partition.WriteContents: `res=reconcile`, or the
+    WriteAt list, the count, ok and the End / Size fields the call leaves on the partition -/
+def pwrite (args : List String) : String :=
+  let chunks := (natList ((arg args "chunks").getD "-")).map fun n => List.replicate n (0 : UInt8)
+  match onePart args with
+  | none => "res=nopart"
+  | some p =>
+    match PartDisk.partWrite p chunks with
+    | none => "res=reconcile"
+    | some (r, p') => s!"res=done\tws={wsLens r.ws}\ttotal={r.total}\tok={if r.ok then 1 else 0}\tend={p'.end_}\tsize={p'.size}"
+
+/-- partio.pread part= dev=  → Partition.ReadContents: the ReadAt requests and the count returned -/
+def pread (args : List String) : String :=
+  match onePart args with
+  | none => "res=nopart"
+  | some p =>
+    let dev := argNatD args "dev"
+    let rs := PartDisk.partReadReqs dev p
+    let n := (PartDisk.partRead (fun _ => 0) dev p).2
+    s!"rs={reqsStr rs}\tn={n}"
+
 end Driver.PartIO
 
 def main : IO Unit := Driver.runLoop fun op args =>
@@ -86,4 +112,6 @@ def main : IO Unit := Driver.runLoop fun op args =>
   | "partio.dwrite" => Driver.PartIO.dwrite args
   | "partio.dread" => Driver.PartIO.dread args
   | "partio.copy" => Driver.PartIO.copy args
+  | "partio.pwrite" => Driver.PartIO.pwrite args
+  | "partio.pread" => Driver.PartIO.pread args
   | _ => "unknown-op"
